@@ -252,7 +252,8 @@ class RealExec:
             r = UN[st[2]](self.operand(st[3]), out=v[st[1]], **kw)
             assert r is v[st[1]]
         elif k == "back":
-            seed = None if st[2] is None else np.array(st[2][2], dtype=float).reshape(st[2][1])
+            # an *owning* array: MyGrad stores the caller's seed array itself as L.grad (known finding F8)
+            seed = None if st[2] is None else np.array(st[2][2], dtype=float).reshape(st[2][1]).copy()
             v[st[1]].backward(seed)
         elif k == "clear":
             v[st[1]].clear_graph()
